@@ -305,6 +305,9 @@ pub fn exec(it: &mut Interp, toks: &[&str], out: &mut Vec<String>) -> bool {
             let (Some(bytes), Ok(lo), Ok(hi)) = (bytes_arg(h), lo.parse::<usize>(), hi.parse::<usize>()) else { return false };
             let cs: Vec<char> = (lo..hi.min(bytes.len())).map(|k| classify(&bytes[..k])).collect();
             out.push(format!("cuts {}", rle(&cs)));
+            if let Some(k) = cs.iter().position(|c| *c == 'o') {
+                out.push(format!("oracle FAIL a proper prefix of {} bytes was accepted", lo + k));
+            }
             true
         }
         ["suffix", h, ext] => {
@@ -317,6 +320,9 @@ pub fn exec(it: &mut Interp, toks: &[&str], out: &mut Vec<String>) -> bool {
                 })
                 .collect();
             out.push(format!("suffix {}", rle(&cs)));
+            if let Some(k) = cs.iter().position(|c| *c == 'o') {
+                out.push(format!("oracle FAIL a file extended by {} bytes was accepted", k + 1));
+            }
             true
         }
         ["verbyte", h] => {
@@ -331,6 +337,9 @@ pub fn exec(it: &mut Interp, toks: &[&str], out: &mut Vec<String>) -> bool {
                 })
                 .collect();
             out.push(format!("verbyte {}", rle(&cs)));
+            if let Some(v) = (0..256usize).find(|v| cs[*v] == 'o' && bytes.get(3) != Some(&(*v as u8))) {
+                out.push(format!("oracle FAIL a file with version byte {v} in place of the original was accepted"));
+            }
             true
         }
         ["rtcheck", a, bb] => {
